@@ -63,7 +63,7 @@ class Columns2(Columns):
         return F(self.it.ctx.var(f"x{row}_{col}"))
 
     def column(self, col):
-        hi = max([self.base, self.op_row] + list(self.extra)) + 2
+        hi = max([self.base, self.op_row] + list(self.extra)) + 6  # a few rows beyond the named ones: code reading too far gets x-cells
         named = {self.op_row, self.op_row + 1, self.base, self.base + 1}
         return _LazyColumn(self, col, hi)
 
@@ -81,13 +81,14 @@ class _LazyColumn(list):
         return super().__getitem__(i)
 
 
-def run_pair(interp, op_consts, chip_row, chip_consts, op_row=0, next_consts=None, extra=None, second_row=None):
+def run_pair(interp, op_consts, chip_row, chip_consts, op_row=0, next_consts=None, extra=None, second_row=None, builder="chiplets/aux_trace/mod.rs"):
     def bus_fn(suffix):
-        # two AuxColumnBuilder impls live in the file: BusColumnBuilder is the first one
-        c_ = [n for n in interp.fns if n.endswith(suffix) and "chiplets/aux_trace/mod.rs:" in n]
-        c_.sort(key=lambda n: int(re.search(r"mod\.rs:(\d+):", n).group(1)))
-        if len(c_) != 2:
-            raise Unsupported(f"{suffix}: expected the impls of BusColumnBuilder and ChipletsVTableColBuilder, found {c_}")
+        # (in chiplets/aux_trace/mod.rs two AuxColumnBuilder impls live in the file: BusColumnBuilder is the first one)
+        c_ = [n for n in interp.fns if n.endswith(suffix) and builder + ":" in n]
+        c_.sort(key=lambda n: int(re.search(r"\.rs:(\d+):", n).group(1)))
+        want = 2 if builder.endswith("chiplets/aux_trace/mod.rs") else 1
+        if len(c_) != want:
+            raise Unsupported(f"{suffix} in {builder}: expected {want} impl(s), found {c_}")
         return c_[:1]
     req, rsp = bus_fn("::get_requests_at"), bus_fn("::get_responses_at")
 
@@ -190,13 +191,48 @@ def main():
                       what="hasher rows starting the permutation (BP) and returning the state (SOUT)",
                       match=lambda cur, nxt, q: [(q(HST + j), cur(ST + 11 - j)) for j in range(12)],
                       match2=lambda cur, nxt, u: [(u(HST + j), nxt(ST + 11 - j)) for j in range(12)]))
+    # ---- decoder virtual tables: the row a block start ADDS (response of the start row, here the "chiplet" row
+    # pair q/r at trace row 20) is the row the matching RESPAN / END REMOVES (request of the op row c/n at row 40)
+    def opbits(name):
+        return {int(k): v for k, v in meta.opcode_consts(meta.ops[name]["opcode"]).items()}
+    ADDR = DEC
+    H = lambda i: DH + i  # noqa: E731
+    BST = "decoder/aux_trace/block_stack_table.rs"
+    BHT = "decoder/aux_trace/block_hash_table.rs"
+    SYS_CTX, SYS_FMP, B0c, B1c, FNH = CTX, c["FMP"], c["B0"], c["B1"], c["FN_HASH"]
+    # block stack table p1: SPAN / RESPAN add (a', parent, 0); RESPAN removes (a, h1', 0)
+    for starter in ("Span",):
+        cases.append(dict(op="Respan", builder=BST, op_row=40, chip_row=20, chip=opbits(starter), what=f"block stack table: row added by {starter.upper()}",
+                          match=lambda cur, nxt, q, r=None: []))
+    cases[-1]["match"] = None  # filled below (needs the next-row cells of the start row)
+    cases.pop()
+    cases.append(dict(op="Respan", builder=BST, op_row=40, chip_row=20, chip=opbits("Span"), what="block stack table: the row SPAN added for this batch",
+                      rel4=lambda cur, nxt, q, r: [(cur(ADDR), r(ADDR)), (nxt(H(1)), q(ADDR))]))
+    # END removes what JOIN / SPLIT / SPAN / LOOP added: (a, a', is_loop)
+    for starter in ("Join", "Split", "Span"):
+        cases.append(dict(op="End", builder=BST, op_row=40, chip_row=20, chip=opbits(starter), cur_consts={H(6): 0, H(7): 0, H(5): 0},
+                          what=f"block stack table: the row {starter.upper()} added", rel4=lambda cur, nxt, q, r: [(cur(ADDR), r(ADDR)), (nxt(ADDR), q(ADDR))]))
+    cases.append(dict(op="End", builder=BST, op_row=40, chip_row=20, chip=opbits("Loop"), cur_consts={H(6): 0, H(7): 0},
+                      what="block stack table: the row LOOP added (is_loop = the loop condition)",
+                      rel4=lambda cur, nxt, q, r: [(cur(ADDR), r(ADDR)), (nxt(ADDR), q(ADDR)), (cur(H(5)), q(ST))]))
+    # END of a CALL removes the row CALL added, including the caller's context and the function hash
+    cases.append(dict(op="End", builder=BST, op_row=40, chip_row=20, chip=opbits("Call"), cur_consts={H(6): 1, H(7): 0, H(5): 0},
+                      what="block stack table: the row CALL added (with the execution context)",
+                      rel4=lambda cur, nxt, q, r: [(cur(ADDR), r(ADDR)), (nxt(ADDR), q(ADDR)), (nxt(SYS_CTX), q(SYS_CTX)), (nxt(SYS_FMP), q(SYS_FMP)), (nxt(B0c), q(B0c)), (nxt(B1c), q(B1c))]
+                      + [(cur(FNH + i), q(H(i))) for i in range(4)]))
+    # block hash table p2: the END of a called procedure's body removes the entry CALL added (parent = the call block, hash = h0..h3 of
+    # the CALL row, not a loop body, the next operation is the END of the call block)
+    cases.append(dict(op="End", builder=BHT, op_row=40, chip_row=20, chip=opbits("Call"), cur_consts={H(4): 0}, next_consts=opbits("End"),
+                      what="block hash table: the entry CALL added for the called body",
+                      rel4=lambda cur, nxt, q, r: [(nxt(ADDR), r(ADDR))] + [(cur(H(i)), q(H(i))) for i in range(4)]))
     for case in cases:
         opcode = meta.ops[case["op"]]["opcode"]
         op_consts = {int(k): v for k, v in meta.opcode_consts(opcode).items()}
         op_consts.update(case.get("cur_consts", {}))
         tag = f"bus:{case['op']} <-> {case['what']}"
         try:
-            paths = run_pair(interp, op_consts, case["chip_row"], case["chip"], case.get("op_row", 0), case.get("next_consts"), case.get("extra"), case.get("second_row"))
+            paths = run_pair(interp, op_consts, case["chip_row"], case["chip"], case.get("op_row", 0), case.get("next_consts"), case.get("extra"), case.get("second_row"),
+                             case.get("builder", "chiplets/aux_trace/mod.rs"))
         except Unsupported as e:
             V.add(tag, "inconclusive", detail=str(e)[:300])
             continue
@@ -210,7 +246,11 @@ def main():
             cur = lambda col: ctx.var(f"c{col}")  # noqa: E731
             nxt = lambda col: ctx.var(f"n{col}")  # noqa: E731
             q = lambda col: ctx.var(f"q{col}")  # noqa: E731
-            rel = [ctx.eq(a, b) for a, b in case["match"](cur, nxt, q)]
+            if "rel4" in case:
+                rr = lambda col: ctx.var(f"r{col}")  # noqa: E731
+                rel = [ctx.eq(a, b) for a, b in case["rel4"](cur, nxt, q, rr)]
+            else:
+                rel = [ctx.eq(a, b) for a, b in case["match"](cur, nxt, q)]
             if "match2" in case:
                 u = lambda col: ctx.var(f"u{col}")  # noqa: E731
                 rel += [ctx.eq(a, b) for a, b in case["match2"](cur, nxt, u)]
@@ -282,6 +322,8 @@ BUS_PROGRAMS_MORE = {
 def confirm(V, name, path, op):
     """native: a program using the operation; the chiplets bus column must return to 1 at the end of the real trace"""
     import masmsym
+    if op in ("End", "Respan"):
+        return confirm_tables(V, name, path)
     progs = [BUS_PROGRAMS[op]] + BUS_PROGRAMS_MORE.get(op, [])
     progs = [(p_, []) if isinstance(p_, str) else p_ for p_ in progs]
     nats = masmsym.native([{"kind": "trace_check", "source": src, "stack": [], "advice": [str(x) for x in adv], "aux": True} for src, adv in progs], "c12")
@@ -291,6 +333,24 @@ def confirm(V, name, path, op):
             V.violation(name, path, f"{name}; native trace of `{src}`: the chiplets bus column ends at {nat.get('bus_final')} instead of 1", key=f"bus:{op}")
             return
     V.add(name, "inconclusive", detail=f"solver counterexample; native bus column back at 1 for {progs}")
+
+
+TABLE_PROGRAMS = ["begin repeat.80 push.1 drop end end", "begin repeat.18 padw end drop end", "proc.f push.1 drop end begin call.f end",
+                  "begin push.1 if.true push.2 drop else push.3 drop end push.1 while.true push.0 end end",
+                  "proc.f push.1 drop end proc.g call.f push.2 drop end begin call.g call.f end"]
+
+
+def confirm_tables(V, name, path):
+    """native: every virtual-table column of real traces (decoder p1..p3, chiplets table and bus) must end at 1"""
+    import masmsym
+    nats = masmsym.native([{"kind": "trace_check", "source": src, "stack": [], "advice": [], "aux": True} for src in TABLE_PROGRAMS], "c12t")
+    for src, nat in zip(TABLE_PROGRAMS, nats):
+        fin = nat.get("aux_final") or []
+        bad = [i for i in (0, 1, 2, 5, 6) if i < len(fin) and fin[i] != "1"]
+        if nat.get("status") == "ok" and bad:
+            V.violation(name, path, f"{name}; native trace of `{src}`: auxiliary column(s) {bad} end at {[fin[i] for i in bad]} instead of 1", key="tables:" + name.split(":")[1][:12])
+            return
+    V.add(name, "inconclusive", detail="solver counterexample; native virtual-table columns all end at 1")
 
 
 if __name__ == "__main__":
